@@ -16,7 +16,7 @@ import (
 )
 
 func main() {
-	ev.Main("C07", "exploration", func(r *ev.Run) {
+	ev.MainIsolated("C07", "exploration", 60*time.Minute, func(r *ev.Run) {
 		r.Rule("seeded histories of 5..40 operations {add key|cert, add-hardware-cert, remove, remove-all, list, signers, sign, direct add/remove on the keyring, direct lock/unlock, sleep-until-lapse} on a real shim over the scripted underlying agent, in both upstream modes, with certificates whose windows are past, just expired, current, future, lapsing in 2 s, 0..0, 0..forever, ValidAfter > MaxInt64, valid in 25 s, expired 12 s ago; after every operation the result and the keyring (read directly) are compared with the sequential reference model under the interval-clock rule. plus the orphan-rule table (a hardware certificate accepted, then the underlying agent rearranged directly into: emptied, locked, key still plain, key plain among others, another plain key, only a certificate of another key, only certificates of two other keys, other key + other certificate, only a certificate over the same key; x first filter-running operation List/Signers/Sign x three key types x both modes). distinct_nontrivial = distinct histories in which the model saw at least one out-of-window certificate purged or one orphan hardware certificate dropped")
 		r.Assume("interval oracle: the implementation's clock read lies between the harness's reads before and after the call; the boundary second is don't-care", "for the slow-listing cases the clock read cannot precede the arrival of the listing that is being filtered", "whether a certificate over the same key counts as 'its public key' for orphaning is left open")
 		gen.Pool()
